@@ -142,6 +142,15 @@ func (r *ServerRig) Send(rec string) {
 func (r *ServerRig) Settle() {
 	r.Ctrl.Settle()
 	r.Collect()
+	checkReuse(r.C, "server", r.End)
+}
+
+// checkReuse fails the case if the library wrote again to one of the last buffers it had
+// passed to Send (quiescent: nobody is sending now).
+func checkReuse(c *vt.Ctx, who string, e *vchan.End) {
+	if i, was, now, reused := e.ReusedAfterSend(8); reused {
+		c.Failf("the %s wrote to a buffer after passing it to Channel.Send (a channel such as channel.Direct hands that buffer to the peer uncopied): record #%d was sent as %.200q and now reads %.200q", who, i, was, now)
+	}
 }
 
 // Collect moves records waiting on the peer end into the rig's outbound list.
